@@ -29,7 +29,8 @@ ALL_PUZZLES = ["sudoku", "slitherlink", "masyu", "yajilin", "nurikabe", "heyawak
 # (shards, cases per shard) of the large-board layer; cases cost 0.1 - 4 s each (7 solver calls)
 LARGE_QUICK = {"fillomino": (1, 6), "fivecells": (1, 5), "sudoku": (1, 5), "nurikabe": (1, 6), "view": (1, 6),
                "norinori": (1, 30), "putteria": (1, 30), "lits": (1, 30), "aquarium": (1, 30), "akari": (2, 25),
-               "simpleloop": (1, 15), "masyu": (1, 14), "shakashaka": (1, 10), "creek": (1, 10), "heyawake": (1, 10)}
+               "simpleloop": (1, 15), "masyu": (1, 14), "geradeweg": (2, 16), "castle_wall": (1, 14), "slitherlink": (1, 10),
+               "yajilin": (1, 12), "compass": (1, 10), "star_battle": (1, 12), "doppelblock": (1, 8), "shakashaka": (1, 10), "creek": (1, 10), "heyawake": (2, 14)}
 LARGE_THOROUGH = {"fillomino": (8, 20), "fivecells": (8, 20), "sudoku": (8, 25)}
 
 
@@ -106,6 +107,10 @@ def shard_large(arg):
     def b(case):
         try:
             out = large.run_large(ls, case)
+        except large.SolverBudget:
+            # a z3 call ran into its time limit: inconclusive, never a violation
+            st.case(canon=case, nontrivial=False, classes=["large", "large:" + name, "large:%s:solver-budget-exceeded" % name])
+            return
         except Failure as f:
             if getattr(f, "derived", None) is not None:
                 case["derived"] = f.derived
@@ -138,7 +143,7 @@ def shard_large(arg):
 
     # model-mode cases cost seconds each: no shrinking in the quick tier (the unshrunk case replays as well)
     hyp_search(st, large.case_strategy(ls), b, seed=seed, max_examples=n, check="c11.large." + name,
-               shrink=thorough, rounds=2)
+               shrink=thorough, rounds=2, round_floor=max(4, n // 2))
     return st
 
 
@@ -222,7 +227,11 @@ def replay(ctx, rep):
     if case.get("layer") == "large":
         from puzzles import large
 
-        large.run_large(large.large_specs()[case["puzzle"]], case)
+        try:
+            large.run_large(large.large_specs()[case["puzzle"]], case)
+        except large.SolverBudget:
+            from vlib.harness import HarnessError
+            raise HarnessError("inconclusive: a z3 call exceeded its time limit")
         return
     spec = load_specs()[case["puzzle"]]
     base.run_instance(spec, case["inst"])
